@@ -135,7 +135,10 @@ class StubGenerator:
         for level in tree.levels[:-1]:
             for deme in level:
                 if deme.is_active:
-                    if bool(self.P.bool(f"offer.{deme.id}")):
+                    self.rounds = getattr(self, "rounds", {})
+                    k = self.rounds.get(deme.id, 0)
+                    self.rounds[deme.id] = k + 1
+                    if bool(self.P.bool(f"offer.{deme.id}" + (f"#{k}" if k else ""))):
                         pop = sorted(deme.current_population, reverse=True)[: self.per_deme]
                         out[deme] = DemeCandidates(individuals=list(pop), features=DemeFeatures(nbc_mean_distance=1.0))
                         self.offered[deme.id] = list(pop)
